@@ -612,6 +612,11 @@ class Body:
                 f.pop(l, None)
                 if r['k'] == 'agg' and r.get('var') in self._VARIDX:
                     f[l] = self._VARIDX[r['var']]
+                elif r['k'] == 'agg' and r.get('var') and r.get('adt') in self.prog.adts:
+                    # a crate-defined enum (a small step / verdict type handed between two phases of a function)
+                    names = [v['name'] for v in self.prog.adts[r['adt']]['variants']]
+                    if r['var'] in names and len(names) > 1:
+                        f[l] = names.index(r['var'])
                 elif r['k'] == 'use' and 'p' in r['o'] and len(r['o']['p']) == 1 and r['o']['p'][0] in f:
                     f[l] = f[r['o']['p'][0]]
                 elif r['k'] == 'disc' and len(r['p']) == 1 and r['p'][0] in f:
@@ -1319,7 +1324,7 @@ def dominating_conds(body, node, expand=True, _depth=0):
     assignment giving it the tested value."""
     out = []
     if _depth == 0 and getattr(body, 'regions', None):
-        for arm, conds in region_success_conds(body):
+        for arm, conds, _en in region_success_conds(body):
             if body.dominates(arm, node):
                 out += conds
     for n, edge in body.dominating_edges(node):
@@ -1401,15 +1406,29 @@ def region_success_conds(body):
             continue
         region_blocks = set(range(first, first + nblk))
         conds = []
+        enodes = set()
         for n_, e_ in edges.items():
             if e_[0] not in region_blocks:
                 continue
             reach = body.reachable_tracking([first], {n_})
             if arm not in reach:
                 conds.append(edge_cond(body, e_))
-        out.append((arm, conds))
+                enodes.add(n_)
+        out.append((arm, conds, enodes))
     body._rsc = out
     return out
+
+
+def holds_at(body, edge_node, node):
+    """is the branch edge `edge_node` taken on every path to `node`? plain dominance, or — for an edge inside a spliced helper —
+    membership in the helper's success edges when the helper's success arm dominates `node`"""
+    if body.dominates(edge_node, node):
+        return True
+    if getattr(body, 'regions', None):
+        for arm, _conds, enodes in region_success_conds(body):
+            if edge_node in enodes and body.dominates(arm, node):
+                return True
+    return False
 
 
 def norm_cmp(c):
